@@ -1,6 +1,158 @@
-import HranoModel.Model.Options
-import HranoModel.Model.Sink
-import HranoModel.Model.Chan
-/-! C05 property theorems (statements only in this file; helper lemmas live in Lemmas/) -/
+import HranoModel.Props.C01
+import HranoModel.Props.C11
+import HranoModel.Lemmas.Run
+/-!
+C05 — every report is a pure function of its inputs.
+
+Property theorems only.  In the model every `range` over a Go map is either (a) the resolver's visiting
+order, an explicit parameter `ord` of `App.run` — any function that returns the keys in some order — or
+(b) a "collect the keys, sort them, then print" site, modelled by keeping the collection and sorting
+it (`Accumulator.sorted`, `Elements.sort`, `Report.sortBook`, sorted tree children).  The theorems:
+(a) the whole program's outcome does not depend on `ord`; (b) sorting after collecting in any order
+gives the same list when names are distinct, so no such site can leak the collection order.
+
+What the model cannot exhibit: Go's actual map randomisation (the implementation is sampled by
+repeated in-process and cross-process runs).
+-/
 namespace Hrano.C05
+open Hrano Hrano.Spec Hrano.Resolver Hrano.App
+
+/-- `set` keeps keys distinct -/
+theorem set_keys_nodup : ∀ (b : Book) (n : Bytes) (v : Elements), b.keys.Nodup → (b.set n v).keys.Nodup := by
+  intro b n v h
+  induction b with
+  | nil => simp [Book.set, Book.keys]
+  | cons kv r ih =>
+    obtain ⟨k, w⟩ := kv
+    unfold Book.set
+    by_cases hk : (k == n) = true
+    · simpa [hk, Book.keys] using h
+    · have hk' : (k == n) = false := by simpa using hk
+      simp only [hk', Bool.false_eq_true, if_false]
+      simp only [Book.keys, List.map_cons, List.nodup_cons] at h ⊢
+      refine ⟨?_, ih h.2⟩
+      intro hm
+      -- a key of `set r n v` is a key of `r` or is `n`
+      have : ∀ (r : Book), k ∈ (Book.set r n v).keys → k ∈ r.keys ∨ k = n := by
+        intro r
+        induction r with
+        | nil => intro h'; simp [Book.set, Book.keys] at h'; exact Or.inr h'
+        | cons kv' r' ih' =>
+          obtain ⟨k', w'⟩ := kv'
+          intro h'
+          unfold Book.set at h'
+          by_cases hk2 : (k' == n) = true
+          · simp only [hk2, if_true, Book.keys, List.map_cons, List.mem_cons] at h' ⊢
+            exact Or.inl h'
+          · have hk2' : (k' == n) = false := by simpa using hk2
+            simp only [hk2', Bool.false_eq_true, if_false, Book.keys, List.map_cons, List.mem_cons] at h' ⊢
+            rcases h' with h' | h'
+            · exact Or.inl (Or.inl h')
+            · rcases ih' h' with h'' | h''
+              · exact Or.inl (Or.inr h'')
+              · exact Or.inr h''
+      rcases this r hm with h1 | h1
+      · exact h.1 h1
+      · simp [h1] at hk'
+
+/-- a book loaded from a file has distinct recipe names (a repeated heading replaces the earlier record) -/
+theorem ofNodes_keys_nodup (ns : List Node) : (Book.ofNodes ns).keys.Nodup := by
+  unfold Book.ofNodes
+  suffices ∀ (ns : List Node) (b : Book), b.keys.Nodup → (ns.foldl (fun b n => b.set n.header n.elements) b).keys.Nodup from
+    this ns [] (by simp [Book.keys])
+  intro ns
+  induction ns with
+  | nil => intro b h; exact h
+  | cons n r ih => intro b h; exact ih _ (set_keys_nodup b n.header n.elements h)
+
+theorem loadBook_go_nodup (se : Option ScanErr) : ∀ (evs : List Event) (acc : List Node) (b : Book),
+    loadBook.go se evs acc = .ok b → b.keys.Nodup := by
+  intro evs
+  induction evs with
+  | nil =>
+    intro acc b h
+    cases se with
+    | none => simp [loadBook.go] at h; rw [← h]; exact ofNodes_keys_nodup _
+    | some e => simp [loadBook.go] at h
+  | cons ev r ih =>
+    intro acc b h
+    cases ev with
+    | error pe => simp [loadBook.go] at h
+    | node n => exact ih (n :: acc) b (by simpa [loadBook.go] using h)
+
+/-- the resolver's result (success with which book, or the depth error) is the same for any two visiting
+    orders that visit exactly the recipes of the book -/
+theorem resolve_any_order (B : Book) (hnd : B.keys.Nodup) (m : Int) (o₁ o₂ : List Bytes)
+    (h₁ : ∀ n, n ∈ o₁ ↔ n ∈ B.keys) (h₂ : ∀ n, n ∈ o₂ ↔ n ∈ B.keys) :
+    resolveAll m B o₁ = resolveAll m B o₂ := by
+  have hm : ∀ o, resolveAll m B o = resolveAll ((m.toNat : Nat) : Int) B o := by
+    intro o; unfold resolveAll
+    suffices ∀ (o : List Bytes) st, resolveAll.go m o st = resolveAll.go ((m.toNat : Nat) : Int) o st from this o _
+    intro o
+    induction o with
+    | nil => intro st; rfl
+    | cons x xs ih => intro st; simp only [resolveAll.go, Int.toNat_natCast]; cases resolveNode m.toNat x st <;> simp [ih]
+  rw [hm o₁, hm o₂]
+  by_cases hc : ∃ n ∈ B.keys, Chain B n m.toNat
+  · obtain ⟨n, hn, hch⟩ := hc
+    rw [(C11.depth_exact B m.toNat o₁).mpr ⟨n, (h₁ n).mpr hn, hch⟩, (C11.depth_exact B m.toNat o₂).mpr ⟨n, (h₂ n).mpr hn, hch⟩]
+  · have d : ∀ o : List Bytes, (∀ n, n ∈ o ↔ n ∈ B.keys) → ∀ n ∈ o, ¬ Chain B n m.toNat :=
+      fun o ho n hn hch => hc ⟨n, (ho n).mp hn, hch⟩
+    exact C01.resolve_order_irrelevant B m.toNat o₁ o₂ hnd (fun n hn => (h₁ n).mpr hn) (fun n hn => (h₂ n).mpr hn) (d o₁ h₁) (d o₂ h₂)
+
+/-- **The whole program does not depend on the map visiting order**: for any two order functions that return
+    exactly the keys they are given (in any order, with any repetition), every command gives the same
+    output bytes and the same success or failure. -/
+theorem run_order_independent (c : Cmd) (o : Opts) (fs : Files) (rf : ReadFaults) (ord₁ ord₂ : List Bytes → List Bytes)
+    (h₁ : ∀ ks n, n ∈ ord₁ ks ↔ n ∈ ks) (h₂ : ∀ ks n, n ∈ ord₂ ks ↔ n ∈ ks) :
+    run c o fs rf ord₁ = run c o fs rf ord₂ := by
+  have hbook : ∀ (m : Int) (p : List Event × Option ScanErr), bookOf m ord₁ p = bookOf m ord₂ p := by
+    intro m p
+    unfold bookOf
+    cases hl : loadBook p.1 p.2 with
+    | error e => rfl
+    | ok book =>
+      simp only
+      rw [resolve_any_order book (loadBook_go_nodup p.2 p.1 [] book hl) m (ord₁ book.keys) (ord₂ book.keys) (h₁ _) (h₂ _)]
+  have hres : ∀ o' : Opts, resolvedBook o' fs rf ord₁ = resolvedBook o' fs rf ord₂ := by
+    intro o'
+    unfold resolvedBook
+    cases parsed fs rf o'.dbFile <;> simp [hbook]
+  cases c <;> simp [run, withBookAndLog, withBook, hres]
+
+/-- **Collect-then-sort sites**: whatever order a map yields its entries in, the sorted list that is printed is
+    the same, because the names are distinct.  (Instances: register and period totals, by-food rows,
+    resolved CSV, unresolved names, quantity and element-total rows before the stable sort by value.) -/
+theorem sorted_totals_order_irrelevant (acc acc' : Accumulator) (hp : acc.Perm acc') (hnd : (Accumulator.names acc).Nodup) :
+    Accumulator.sorted acc = Accumulator.sorted acc' := by
+  rw [Srt.acc_sorted_eq, Srt.acc_sorted_eq]
+  apply Srt.sortBy_perm_eq _ _ _ hp
+  intro a ha b hb hab
+  -- distinct names: equal names means the same entry
+  have hf1 := Accumulator.find_of_mem acc hnd a ha
+  have hf2 := Accumulator.find_of_mem acc hnd b hb
+  rw [hab] at hf1
+  rw [hf1] at hf2
+  exact Option.some.inj hf2
+
+theorem sorted_elements_order_irrelevant (es es' : Elements) (hp : es.Perm es') (hnd : (Elements.names es).Nodup) :
+    Elements.sort es = Elements.sort es' := by
+  rw [Srt.elements_sort_eq, Srt.elements_sort_eq]
+  apply Srt.sortBy_perm_eq _ _ _ hp
+  intro a ha b hb hab
+  -- the position of a name in a duplicate-free list of names is unique
+  have hinj : ∀ (l : Elements), (l.map (·.name)).Nodup → ∀ a ∈ l, ∀ b ∈ l, a.name = b.name → a = b := by
+    intro l
+    induction l with
+    | nil => intro _ a ha; cases ha
+    | cons x xs ih =>
+      intro hn a ha b hb hab
+      simp only [List.map_cons, List.nodup_cons] at hn
+      rcases List.mem_cons.mp ha with rfl | ha' <;> rcases List.mem_cons.mp hb with rfl | hb'
+      · rfl
+      · exact absurd (List.mem_map.mpr ⟨b, hb', hab.symm⟩) hn.1
+      · exact absurd (List.mem_map.mpr ⟨a, ha', hab⟩) hn.1
+      · exact ih hn.2 a ha' b hb' hab
+  exact hinj es hnd a ha b hb hab
+
 end Hrano.C05
